@@ -53,12 +53,50 @@ CHECKS.update({
              note="The network leg (download, extract, replace) cannot run offline and is not exercised; the install gate is observed as !hasLatest(current, latest).",
              ref="DESIGN.md §4 C20", engine="hypothesis+verifupd"),
 })
+CHECKS.update({
+ "C05": dict(technique="property-based testing: generated quantum programs; strict OpenQASM-2 parser + abstract interpreter of the program (expected op sequence with handles) + forced-outcome replay on a numpy interpreter; CLI file/stdout equality",
+             text="The emitted text must parse under a strict grammar (header, one qreg/creg, operands in range, cx operands distinct), list exactly the operations the program performed in order (explicit ops and implicit resets on qubit release/re-use, under one consistent handle-to-index map) and replay - with the logged measure/reset branches forced - to the simulator's final amplitudes up to global phase.",
+             note="Trusts the abstract interpreter in pbt/qprog.py (what a program performs), the numpy replayer and the outcome/amplitude hooks.",
+             ref="DESIGN.md §4 C05"),
+ "C06": dict(technique="model-based property testing: generated operation sequences rendered through random access paths; per-qubit active/measured model predicts the first offending operation; metamorphic prefix closure",
+             text="The model gives the first operation that touches a measured qubit; the run must end there with one located runtime error (and not earlier, not later: the prefix before it runs cleanly, the prefix through it fails); an unlocated diagnostic reveals disagreement between the evaluator's and the simulator's flags.",
+             note="The diagnostic line may be that of the built-in call inside the helper the operation was routed through.",
+             ref="DESIGN.md §4 C06"),
+ "C08": dict(technique="property-based differential testing: generated class programs vs a reference model of the documented object model (construction order, dispatch, static overload choice, statics, refcounted destructors)",
+             text="Every constructor, field initialiser, method and destructor traces; the complete trace must equal the reference model's. Overload sets over related reference types, base-typed references to derived objects, super calls, bare virtual calls, aliases and destroys are generated on purpose.",
+             note="Objects that die at the same scope exit may be destroyed in any order (traces are compared as sets of per-object chains); generics are exercised by C18's prelude, not modelled here.",
+             ref="DESIGN.md §4 C08"),
+ "C09": dict(technique="metamorphic property-based testing: alpha-renaming of one local/parameter of one function/method/constructor to a fresh or colliding (capture-free) name must not change stdout/status/diagnostic",
+             text="Programs whose methods use bare field names are renamed so that a local of a caller or callee collides with a field or with locals elsewhere; under lexical scoping nothing may change.",
+             note="Capture-freedom is guaranteed by construction; destructor order at a shared scope exit is canonicalised (it follows the hash of variable names).",
+             ref="DESIGN.md §4 C09"),
+ "C11": dict(technique="metamorphic property-based testing over generated collection schedules (hook-controlled: never / every boundary / allocation pressure / drawn bit masks) + ThreadSanitizer runs with the real timer thread",
+             text="Allocation-heavy programs (objects held only by pending arguments, receivers, values in flight, constructor argument lists; unreachable cycles) must print the same output and destructor trace under every schedule as under 'never'; TSan must stay silent with the real 50 ms timer and no thread may outlive the evaluator, also after a runtime error.",
+             note="Interleavings of the timer thread are not enumerated; TSan's happens-before analysis on the executed paths is the evidence offered.",
+             ref="DESIGN.md §4 C11", engine="hypothesis+verifdrv+tsan_runner"),
+ "C12": dict(technique="property-based testing / template fuzzing with sanitizers as oracle: edge-value programs and literal-mutated generated programs through the real CLI of an ASan+UBSan build",
+             text="Accepted programs built around arithmetic extremes, bad indices, null references, errors raised inside constructors / initialisers / destructors while objects are live, deep hierarchies with overloaded virtuals and qubit misuse must end with status 0 or with exactly one 'Runtime error' line; signals, sanitizer reports and raw exception texts are violations.",
+             note="Unbounded recursion (ASan stack-overflow) is out of the property's scope and counted separately; three UBSan sub-checks are off (DESIGN.md 2.3).",
+             ref="DESIGN.md §4 C12"),
+ "C16": dict(technique="exhaustive enumeration of a rule x position x type-pair matrix (458 violating/repaired snippet pairs in a fixed skeleton, 6 syntactic embeddings each) with a metamorphic pair oracle",
+             text="Each cell is backed by a documented rule; the violating program must be rejected with a Semantic diagnostic and its repaired twin accepted, in main, functions, methods, constructors, static methods, subclasses, unrelated classes, field and static initialisers, loop headers and nested blocks.",
+             note="Finite matrix run completely in the quick tier; only the diagnostic category is compared; R9 accepts any rejection.",
+             ref="DESIGN.md §4 C16"),
+ "C17": dict(technique="property-based testing against a reference model: per-shot tracked tables vs the abstract interpreter of the program's measurement history; CLI aggregate table parsed and compared with the sum of per-shot tables (same seeds)",
+             text="Loop-scoped and helper-local tracked variables, partly measured registers, reset histories and tracked object fields are generated with shot counts from flag and/or annotation and every --echo mode; counts, totals (N x exits), probabilities (count/total, in [0,1], sum 1), header and echo multiplicity are checked.",
+             note="CLI shots are seeded through the BLOCH_VERIF_SHOT_SEED hook with the same per-shot seeds as the API run.",
+             ref="DESIGN.md §4 C17"),
+ "C18": dict(technique="metamorphic property-based testing: an N-shot run in one process must equal N fresh single-shot processes with the same per-shot seeds",
+             text="Programs depend on per-run state on purpose (static counters feeding object ids, generic instantiations with statics incl. diamond inference and generic bases, const-sized arrays, objects owning qubits, tracked variables); echo, tracked tables, status and QASM are compared shot by shot, also after analysing twice.",
+             note="Seeds are the same function of (base seed, shot index) in both arrangements (driver option --shot0).",
+             ref="DESIGN.md §4 C18"),
+})
 REASONS = {}
 def main():
     hooks = subprocess.run(["git","-C","/repo","log","--format=%h %s","--grep=^verif hooks"],capture_output=True,text=True).stdout.strip().splitlines()
     m = {
      "version": 1,
-     "setup_cmd": "python3-vt -m pbt.build asan upd fuzz",
+     "setup_cmd": "python3-vt -m pbt.build asan upd fuzz tsan",
      "hooks": {"guard": "BLOCH_VERIF",
                "enable": "pbt/build.py compiles /repo/src/**/*.cpp directly with clang++ -std=gnu++20 -DBLOCH_VERIF plus sanitizers into /verif/.build/<flavour>-<sha256 of tree>/; recomputed at the start of every check",
                "baseline_off_cmd": "/verif/harness/baseline_off.sh /repo",
